@@ -1058,6 +1058,7 @@ func exInjectFault(r *rng, g *exGraph) (*exGraph, string) {
 			// the root then holds a definition with a scalar `items`: outside the expander model (the typed document encodes the
 			// empty union as null, the known codec finding F4b); judged by the oracles on the implementation
 			f.Tags = append(f.Tags, "empty-union")
+			f.info.Tags["empty-union"] = true
 			break
 		}
 	}
@@ -1933,6 +1934,9 @@ func exUnionsGraph() *exGraph {
 			"open":   map[string]interface{}{"type": "object", "additionalProperties": true},
 			"typed":  map[string]interface{}{"type": "object", "additionalProperties": map[string]interface{}{"type": "string"}, "not": map[string]interface{}{"type": "null"}},
 			"plain":  map[string]interface{}{"type": "object"},
+			// unions their decoder leaves empty (the typed document then encodes them as null)
+			"scalaritems": map[string]interface{}{"type": "array", "items": 5},
+			"emptydep":    map[string]interface{}{"type": "object", "dependencies": map[string]interface{}{"k": []interface{}{}}},
 			"ext": map[string]interface{}{"type": "object", "X-Inner": map[string]interface{}{"in": map[string]interface{}{"type": "boolean"}},
 				"x-inner": map[string]interface{}{"in": map[string]interface{}{"type": "number"}}},
 		},
@@ -1974,6 +1978,7 @@ func exNamesGraph() (*exGraph, []exResolveCase) {
 var exUnionRefs = []string{"#/definitions/tuple/items", "#/definitions/tuple/items/0", "#/definitions/tuple/additionalItems", "#/definitions/list/items",
 	"#/definitions/list/additionalItems", "#/definitions/closed/additionalProperties", "#/definitions/open/additionalProperties",
 	"#/definitions/typed/additionalProperties", "#/definitions/typed/not", "#/definitions/plain/not", "#/definitions/plain/items", "#/definitions/plain/additionalProperties",
+	"#/definitions/scalaritems/items", "#/definitions/emptydep/dependencies/k", "#/definitions/plain/properties", "#/definitions/plain/allOf", "#/definitions/plain/required",
 	"#/X-Shared/thing", "#/x-shared/thing", "#/x-Mixed/thing", "#/X-SHARED/thing", "#/definitions/ext/X-Inner/in", "#/definitions/ext/x-inner/in", "#/definitions/ext/x-INNER/in"}
 
 var exRefTextRe = regexp.MustCompile(`"\$ref"\s*:\s*"([^"]*)"`)
